@@ -214,7 +214,7 @@ impl Prop for C13 {
         }
     }
     fn cases(tier: Tier) -> u64 {
-        scale(tier, 28_000, 4_000_000)
+        scale(tier, 200_000, 4_000_000)
     }
     fn rule() -> &'static str {
         "5/6 of the cases: Engine A 'handles' histories: arena clone/drop (original may go first), every alloc flavour borrowed/owned, detach, drop in any order, drop-counting value types, generated teardown order; per drop the state delta must equal exactly one dealloc(buffer_offset, buffer_capacity) (cursor move, or one node inside the extent, or discarded += extent), a detached drop changes nothing, the value is dropped exactly once / not at all when detached, refs() == live arena values + owned handles, the Unmount event fires exactly once, at the drop that brings the count to zero. 1/6 of the cases: Engine B programs in which 2-4 threads clone and drop arena values and create, send and drop owned buffers under a generated schedule; the original arena value lives in thread 0 and the main thread keeps none: every access to the reference count (fetch_add, fetch_sub, load) must observe exactly the number of arena values alive in the model, the backing memory is released exactly once, by the thread that drops the last value, while no other value is alive. Non-trivial (A) = an owned handle outlived the original arena value and a drop-type value was dropped through a handle; (B) = the memory was released by a scheduled thread in a case with thread-made clones or a sent owned buffer"
